@@ -869,12 +869,72 @@ func (d *Driver) nextRaw() Event {
 				}
 			}
 			return Event{Kind: "Renew", Creator: cr, Provider: pv, Owner: m.Owner, Signer: m.Owner, Datas: datas, Dur: dur, Timeout: d.pickI(d.P.Timeouts)}
+		case "GranteeCycle":
+			// state-directed walk through a grantee's life: the owner grants read-write; the grantee updates; the update's
+			// shards are stored; the grantee (whose order is now the model's latest) asks for a renewal, a termination or
+			// another update; the owner revokes. What a grantee may and may not do is decided at each of these points.
+			if len(d.St.Metas) == 0 {
+				continue
+			}
+			m := d.St.Metas[d.R.Intn(len(d.St.Metas))]
+			cr, pv := d.gatewayFor(d.R)
+			last := d.findOrder(m.Order)
+			if len(m.Rw) == 0 && (last == nil || last.Owner == m.Owner) {
+				var others []string
+				for _, x := range d.ownerDids() {
+					if x != m.Owner {
+						others = append(others, x)
+					}
+				}
+				if len(others) == 0 {
+					continue
+				}
+				return Event{Kind: "Permission", Creator: cr, Provider: pv, Owner: m.Owner, Signer: m.Owner, Data: m.Data, Rw: []string{d.pick(others)}}
+			}
+			if last != nil && last.Owner != m.Owner {
+				// the grantee's order is the latest: first get its shards stored
+				for _, sh := range d.St.Shards {
+					for _, id := range last.Shards {
+						if sh.Id == id && (sh.Status == 0 || sh.Status == 4) {
+							c2, p2 := d.actFor(sh.Sp)
+							return Event{Kind: "Complete", Creator: c2, Provider: p2, Order: last.Id, Size: sh.Size}
+						}
+					}
+				}
+				g := last.Owner
+				switch d.R.Intn(4) {
+				case 0:
+					return Event{Kind: "Permission", Creator: cr, Provider: pv, Owner: m.Owner, Signer: m.Owner, Data: m.Data} // the owner revokes
+				case 1:
+					return Event{Kind: "Terminate", Creator: cr, Provider: pv, Owner: g, Signer: g, Data: m.Data}
+				default:
+					return Event{Kind: "Renew", Creator: cr, Provider: pv, Owner: g, Signer: g, Datas: []string{m.Data}, Dur: d.pickI(d.P.Durs), Timeout: d.pickI(d.P.Timeouts)}
+				}
+			}
+			if len(m.Rw) > 0 && m.Status == 4 {
+				g := d.pick(m.Rw)
+				d.nc++
+				newc := fmt.Sprintf("c%d", d.nc)
+				return Event{Kind: "Store", Creator: cr, Provider: pv, Gw: pv, Owner: g, Signer: g, Data: m.Data, Commit: m.Commit + "|" + newc, Op: 1,
+					Dur: d.pickI(d.P.Durs), Replica: 1, Timeout: d.pickI(d.P.Timeouts), Size: d.pickI(d.P.Sizes), Alias: m.Alias}
+			}
+			continue
 		case "RenewByLastUpdater":
 			// a read-write grantee whose update is the model's latest order asks for the renewal himself
 			var cands []PMeta
 			for _, m := range d.St.Metas {
-				if o := d.findOrder(m.Order); o != nil && o.Owner != m.Owner {
-					cands = append(cands, m)
+				if o := d.findOrder(m.Order); o != nil && o.Owner != m.Owner && m.Status == 4 {
+					stored := true
+					for _, sh := range d.St.Shards {
+						for _, id := range o.Shards {
+							if sh.Id == id && sh.Status != 2 {
+								stored = false
+							}
+						}
+					}
+					if stored {
+						cands = append(cands, m)
+					}
 				}
 			}
 			if len(cands) == 0 {
